@@ -192,6 +192,27 @@ def bounded(ctx):
                     name, modes, got[0][:2], ref[0][:2]), case=dict(scenario=name, spellings=list(modes)), expected=list(ref[0][:2]), observed=list(got[0][:2])))
         if len(samples) < 2:
             samples.append(dict(scenario=name, reference_outcome=list(ref[0][:1])))
+    # (2b) modules wrapped by signature-typed PART classes (a degenerate letter in one signature, a wildcard side in the
+    # other): every per-record spelling, same product as the all-upper-case inputs
+    tp = ba.typed_part_scenario(ns, rng)
+    if tp is not None:
+        def run_tp(modes):
+            vec = tp["vec_cls"](CircularRecord(Seq(recase(tp["vtext"], modes[0], rng)), id="v"))
+            ms = [c_(CircularRecord(Seq(recase(t_, m_, rng)), id="p%d" % i_)) for i_, ((c_, t_), m_) in enumerate(zip(tp["parts"], modes[1:]))]
+            got, prod, w = ba.run_assembly(vec, ms)
+            return got, (str(prod.seq).upper() if prod is not None else None)
+        ref = run_tp(["upper"] * 3)
+        want_ = ("".join(tp["frags"]) + tp["vfrag"]).upper()
+        if ref[0][0] != "product" or not ba.is_rotation(ref[1], want_):
+            viol.append(dict(name="typed_parts_reference", what="typed parts (signatures GGAS/TACT, TACT/NNNN) with overhangs %r: the upper-case inputs end with %r%s" % (
+                tp["overhangs"], ref[0][:2], "" if ref[0][0] != "product" else " (not the documented product)"), case=dict(vector=tp["vtext"], parts=[t_ for _, t_ in tp["parts"]])))
+        for modes in itertools.product(("upper", "lower", "mixed"), repeat=3):
+            evals += 1
+            got = run_tp(list(modes))
+            distinct.add(("typed-parts", modes))
+            if got[0][0] != ref[0][0] or (got[1] is None) != (ref[1] is None) or (got[1] is not None and not ba.is_rotation(got[1], ref[1])):
+                viol.append(dict(name="typed_parts_case", what="typed parts with spellings %r end with %r; the all-upper-case inputs with %r" % (modes, got[0][:2], ref[0][:2]),
+                                 case=dict(spellings=list(modes), vector=tp["vtext"], parts=[t_ for _, t_ in tp["parts"]])))
     # (3) the complete scenario with one plasmid at every rotation (the origin inside an overhang, a site ...) and spelled
     # in lower case or per-letter mixed case, the others upper case: same product as the all-upper-case, unrotated run
     vt, mts = scen["complete"]
